@@ -483,14 +483,15 @@ Lemma find_app {A} (f : A -> bool) l1 l2 :
   find f (l1 ++ l2) = match find f l1 with Some x => Some x | None => find f l2 end.
 Proof. induction l1 as [|x r IH]; simpl; auto. destruct (f x); auto. Qed.
 
-Lemma step_map_spec o t l c' :
-  step_map o t l = Ok c' ->
+(** one element on any of the four key-value destinations ([add] = addValue of the adapter) *)
+Lemma step_kv_spec add o t l c' :
+  step_kv add o t l = Ok c' ->
   run_checks (o_checks o) t = Ok tt /\ tok_key t <> [] /\ tok_val t <> [] /\
   ((o_uniq o = true /\ map_has (tok_key t) l = true /\ o_dup_err o = false /\ c' = CMap l) \/
    ((o_uniq o = false \/ map_has (tok_key t) l = false) /\
-    exists z, lex_int (tok_val t) = Ok z /\ c' = CMap (map_add (tok_key t) z l))).
+    exists z, lex_int (tok_val t) = Ok z /\ c' = CMap (add (tok_key t) z l))).
 Proof.
-  unfold step_map, tok_key, tok_val. intros H. inv_bind H. destruct a.
+  unfold step_kv, tok_key, tok_val. intros H. inv_bind H. destruct a.
   destruct (split2 COMMA t) as [k v]. simpl.
   destruct (is_nil k || is_nil v) eqn:En; [discriminate H|].
   apply orb_false_iff in En. destruct En as [Ek Ev].
@@ -503,8 +504,22 @@ Proof.
   - inv_bind H. inversion H; subst. right. split; eauto.
 Qed.
 
-Lemma step_map_kind p o t l : step_gen p KMap o t (CMap l) = step_map o t l.
-Proof. reflexivity. Qed.
+Lemma step_map_spec o t l c' :
+  step_map o t l = Ok c' ->
+  run_checks (o_checks o) t = Ok tt /\ tok_key t <> [] /\ tok_val t <> [] /\
+  ((o_uniq o = true /\ map_has (tok_key t) l = true /\ o_dup_err o = false /\ c' = CMap l) \/
+   ((o_uniq o = false \/ map_has (tok_key t) l = false) /\
+    exists z, lex_int (tok_val t) = Ok z /\ c' = CMap (map_add (tok_key t) z l))).
+Proof. exact (step_kv_spec map_add o t l c'). Qed.
+
+(** std::map and std::unordered_map: insert() ignores a key that is stored *)
+Definition map_kind (k : kind) : Prop := k = KMap \/ k = KUMap.
+
+Lemma step_map_kind p k o t l : map_kind k -> step_gen p k o t (CMap l) = step_map o t l.
+Proof. intros [->| ->]; reflexivity. Qed.
+
+Lemma step_kv_kind p k o t l : kv_kind k = true -> step_gen p k o t (CMap l) = step_kv (kv_add k) o t l.
+Proof. destruct k; try discriminate; reflexivity. Qed.
 
 Definition start_map (st : cst) (l0 : list (str * Z)) : list (str * Z) := if c_clearp st then [] else l0.
 
@@ -527,18 +542,19 @@ Definition map_entry_spec (start : list (str * Z)) (ts : list str) (key : str) (
   | None, None => got = None
   end.
 
-Theorem cont_map_content p o st u rest st' l0 :
+Theorem cont_map_content p k o st u rest st' l0 :
+  map_kind k ->
   c_val st = CMap l0 -> keys_sorted (start_map st l0) ->
-  run_uses_gen (step_gen p KMap o) o st (u :: rest) = Ok st' ->
+  run_uses_gen (step_gen p k o) o st (u :: rest) = Ok st' ->
   exists l, c_val st' = CMap l /\ keys_sorted l /\
     forall key, map_entry_spec (start_map st l0) (all_tokens o (u :: rest)) key (map_get key l).
 Proof.
-  intros Hv Hs H.
+  intros Hmk Hv Hs H.
   set (s0 := start_map st l0) in *.
-  apply (run_uses_hist (step_gen p KMap o) o
+  apply (run_uses_hist (step_gen p k o) o
           (fun ts c => exists l, c = CMap l /\ keys_sorted l /\
              forall key, map_entry_spec s0 ts key (map_get key l))) in H; auto.
-  - intros ts t c c' [l [-> [Hk Hi]]] Hst. rewrite step_map_kind in Hst. apply step_map_spec in Hst.
+  - intros ts t c c' [l [-> [Hk Hi]]] Hst. rewrite (step_map_kind p k) in Hst by auto. apply step_map_spec in Hst.
     destruct Hst as [_ [_ [_ [[_ [Hh [_ ->]]]|[_ [z [Hz ->]]]]]]].
     + (* key present, element dropped *)
       exists l. split; [auto|split; [auto|]]. intros key. specialize (Hi key).
@@ -567,20 +583,21 @@ Qed.
 
 (** unique data, duplicate keys refused: accepted only if the keys of all
     elements are new and pairwise different *)
-Theorem cont_map_unique_refuse p o st u rest st' l0 :
+Theorem cont_map_unique_refuse p k o st u rest st' l0 :
+  map_kind k ->
   o_uniq o = true -> o_dup_err o = true ->
   c_val st = CMap l0 -> keys_sorted (start_map st l0) ->
-  run_uses_gen (step_gen p KMap o) o st (u :: rest) = Ok st' ->
+  run_uses_gen (step_gen p k o) o st (u :: rest) = Ok st' ->
   NoDup (map fst (start_map st l0) ++ map tok_key (all_tokens o (u :: rest))).
 Proof.
-  intros Hu Hd Hv Hs H.
+  intros Hmk Hu Hd Hv Hs H.
   set (s0 := start_map st l0) in *.
-  apply (run_uses_hist (step_gen p KMap o) o
+  apply (run_uses_hist (step_gen p k o) o
           (fun ts c => exists l, c = CMap l /\ keys_sorted l /\
              NoDup (map fst s0 ++ map tok_key ts) /\
              forall key, In key (map fst s0 ++ map tok_key ts) -> map_get key l <> None)) in H; auto.
   - destruct H as [l [_ [_ [Hn _]]]]. exact Hn.
-  - intros ts t c c' [l [-> [Hk [Hn Hi]]]] Hst. rewrite step_map_kind in Hst. apply step_map_spec in Hst.
+  - intros ts t c c' [l [-> [Hk [Hn Hi]]]] Hst. rewrite (step_map_kind p k) in Hst by auto. apply step_map_spec in Hst.
     destruct Hst as [_ [_ [_ [[_ [_ [Hd' _]]]|[Hor [z [Hz ->]]]]]]]; [congruence|].
     assert (Hh : map_has (tok_key t) l = false) by (destruct Hor; [congruence|auto]).
     exists (map_add (tok_key t) z l). split; [auto|split; [apply map_add_sorted; auto|]]. split.
@@ -602,15 +619,16 @@ Qed.
 
 (** every accepted element has the form key,value with both parts non-empty
     (and passed the checks as a whole) *)
-Theorem cont_map_pair_format p o st uses st' l0 :
+Theorem cont_map_pair_format p k o st uses st' l0 :
+  kv_kind k = true ->
   c_val st = CMap l0 ->
-  run_uses_gen (step_gen p KMap o) o st uses = Ok st' ->
+  run_uses_gen (step_gen p k o) o st uses = Ok st' ->
   Forall (fun t => tok_key t <> [] /\ tok_val t <> []) (all_tokens o uses).
 Proof.
-  intros Hv H.
-  apply (run_uses_inv (step_gen p KMap o) o (fun c => exists l, c = CMap l)
+  intros Hkv Hv H.
+  apply (run_uses_inv (step_gen p k o) o (fun c => exists l, c = CMap l)
            (fun t => tok_key t <> [] /\ tok_val t <> [])) in H; [tauto| | | | |rewrite Hv; eauto].
-  - intros t c c' [l ->] Hs. rewrite step_map_kind in Hs. pose proof Hs as Hs2. apply step_map_spec in Hs.
+  - intros t c c' [l ->] Hs. rewrite (step_kv_kind p k) in Hs by auto. pose proof Hs as Hs2. apply step_kv_spec in Hs.
     destruct Hs as [_ [H1 [H2 [[_ [_ [_ ->]]]|[_ [z [_ ->]]]]]]]; split; eauto.
   - intros c [l ->]. simpl. eauto.
   - intros c [l ->]. simpl. eauto.
@@ -626,19 +644,19 @@ Theorem setup_ok_table k o :
   (o_uniq o = true -> has_iter k = true) /\
   (o_clear o = true -> clearable k = true) /\
   ftab_ok k (o_ftab o) = true /\
-  (k = KMap -> o_sep o <> COMMA).
+  (kv_kind k = true -> o_sep o <> COMMA).
 Proof.
   unfold setup_ok. rewrite !andb_true_iff. split.
   - intros [[[[H1 H2] H3] H4] H5]. repeat split; auto.
     + intros E. rewrite E in H1. destruct (sortable k); auto.
     + intros E. rewrite E in H2. destruct (has_iter k); auto.
     + intros E. rewrite E in H3. destruct (clearable k); auto.
-    + intros -> E. rewrite E in H5. discriminate H5.
+    + intros Ek E. rewrite Ek, E in H5. discriminate H5.
   - intros [H1 [H2 [H3 [H4 H5]]]]. repeat split; auto.
     + destruct (o_sort o); simpl; auto.
     + destruct (o_uniq o); simpl; auto.
     + destruct (o_clear o); simpl; auto.
-    + destruct k; simpl; auto. unfold ceq. destruct (N.eqb_spec (o_sep o) COMMA); simpl; auto.
+    + destruct (kv_kind k) eqn:Ek; simpl; auto. unfold ceq. destruct (N.eqb_spec (o_sep o) COMMA); simpl; auto.
       exfalso. apply H5; auto.
 Qed.
 
@@ -756,10 +774,11 @@ Qed.
 
 Theorem has_iter_table k :
   has_iter k = true <->
-  In k [KVec; KDeque; KList; KFwd; KSet; KMSet; KUSet; KUMSet; KVecStr; KMap] \/ exists n, k = KArr n \/ k = KStdArr n.
+  In k [KVec; KDeque; KList; KFwd; KSet; KMSet; KUSet; KUMSet; KVecStr; KMap; KMMap; KUMap; KUMMap] \/
+  exists n, k = KArr n \/ k = KStdArr n.
 Proof.
   split.
-  - destruct k; simpl; intros H; try discriminate H; eauto 14.
+  - destruct k; simpl; intros H; try discriminate H; eauto 20.
   - intros [H|[n [->| ->]]]; auto. simpl in H. intuition (subst; auto).
 Qed.
 
